@@ -11,17 +11,20 @@ from sim import runner  # noqa: E402
 
 PROP = "C01"
 ORACLES = ("NS-LIVE", "NS-REPLACE", "NS-DEAD", "NS-INDEX", "NS-FINAL", "VAL-")
+# the functions that implement the replace step: an exception raised by them is the replace step failing
+STEP_SITES = ("NestedSampler.insert_live_point", "NestedSampler.consume_sample", "_NSIntegralState.increment",
+              "NestedSampler.populate_live_points", "NestedSampler.finalise")
 
 
 def body(r):
     if r.replay:
-        return swarm.replay_world(r, PROP, oracles=ORACLES)
+        return swarm.replay_world(r, PROP, oracles=ORACLES, abort_sites=STEP_SITES)
     n = 160 if r.tier == "quick" else 5000
     rr = R.stream(r.seed, "c01-plans")
     worlds = [swarm.build_world(r.seed, i, "ns", ["ns"], rr, p_fault=0.5) for i in range(n)]
-    swarm.run_swarm(r, PROP, worlds, oracles=ORACLES)
+    swarm.run_swarm(r, PROP, worlds, oracles=ORACLES, abort_sites=STEP_SITES)
     return r.finish(
-        minimise=swarm.make_minimiser(PROP, (), ORACLES),
+        minimise=swarm.make_minimiser(PROP, (), ORACLES, abort_sites=STEP_SITES),
         rule=("seeded swarm of complete standard-sampler runs (model, nlive, proposal class, latent prior, "
               "reparameterisation, flow type, uninformed phase, checkpoint trigger, pool all vary); half carry 1-3 "
               "kill-and-resume cycles (kills at likelihood calls / fs events, torn writes) and clock stalls. The "
